@@ -272,3 +272,34 @@ pub fn run_mess_t3(rep: &mut Report, drv: &mut Driver, rng: &mut Rng, n: usize) 
         }
     }
 }
+
+
+/// whole detections with the mess detector, the coherence detector and the merge step computed *inside*
+/// the model (`worldFull`): only facts about single characters and the CJK decoders come from the crate
+pub fn run_full_detect_t3(rep: &mut Report, drv: &mut Driver, rng: &mut Rng, n: usize) {
+    let corpus = corpus(20_000);
+    for _ in 0..n {
+        let mut r = rng.fork();
+        let mut c = structured_case(&mut r, &corpus);
+        if c.bytes.len() > 4000 {
+            c.bytes.truncate(4000);
+        }
+        c.sett.trace = false;
+        let real = real_detect(&c.bytes, &c.sett);
+        let full = model_detect_mode(drv, &c.bytes, &c.sett, true);
+        rep.evaluations += 1;
+        rep.t3_compared += 1;
+        rep.count("t3:whole-detection-in-full-model");
+        rep.nontrivial(fp(&c.bytes, &format!("full{}", c.sett.show())));
+        if real != full.outcome {
+            rep.fail(
+                "t3",
+                "C04:full-model-detection-disagrees",
+                &format!("impl: {} || full model: {}", real.show(), full.outcome.show()),
+                &c.bytes,
+                Some(&c.sett),
+                &c.tag,
+            );
+        }
+    }
+}
